@@ -18,7 +18,8 @@ type Fault struct {
 	Who    string // runtime | ext0 | ext1
 	Point  string // runtime: launch before-next init-error after-next after-response idle ; ext: launch before-register after-register init-error exit-error-init exit-error after-event idle
 	Action string // stall exit0 exit1 sig9 (launch: enoent eacces)
-	At     int    // invocation during which the fault strikes (1 = first, includes initialisation)
+	At     int    // invocation during which the fault strikes (1 = first, includes initialisation), counted per process
+	Phase  string // the fault applies to the first process of its program launched in this World.Phase ("" = default phase)
 }
 
 func (f *Fault) String() string {
@@ -33,6 +34,7 @@ type Scen struct {
 	NExt     int
 	ExtEv    [][]string // events per extension (default INVOKE+SHUTDOWN)
 	F        *Fault
+	More     []*Fault // further faults (other phases)
 	Timeout  int
 	OnTermRt string // runtime's SIGTERM policy in the faulty generation
 	OnTermEx string
@@ -97,8 +99,20 @@ func (s Scen) Config() *stack.Config {
 		s.Timeout = 3
 	}
 	cfg := &stack.Config{TimeoutSec: s.Timeout}
+	all := append([]*Fault{}, s.More...)
+	if s.F != nil {
+		all = append(all, s.F)
+	}
+	// the fault (if any) that applies to this process: first launch of its program in the fault's phase
+	pick := func(who string, a *stack.Actor) *Fault {
+		for _, f := range all {
+			if f.Who == who && f.Phase == a.Phase && a.PhaseGen == 1 {
+				return f
+			}
+		}
+		return nil
+	}
 	f := s.F
-	mineRt := func(rt *stack.Actor) bool { return f != nil && f.Who == "runtime" && rt.Gen == 1 }
 	if f != nil && f.Who == "runtime" && f.Point == "launch" {
 		cfg.RuntimeStartErr = launchErr(f.Action) // persistent: a missing / non-executable program stays so
 	}
@@ -106,7 +120,8 @@ func (s Scen) Config() *stack.Config {
 		cfg.RuntimeOnTerm = s.OnTermRt
 	}
 	cfg.Runtime = func(rt *stack.Actor) {
-		mine := mineRt(rt)
+		f := pick("runtime", rt)
+		mine := f != nil
 		if mine && f.Point == "init-error" {
 			rt.InitError("Runtime.InitFailed", InitErrorPayload)
 			act(rt, f.Action)
@@ -153,7 +168,8 @@ func (s Scen) Config() *stack.Config {
 			}
 		}
 		spec.Body = func(x *stack.Actor) {
-			mine := f != nil && f.Who == who && x.Gen == 1
+			f := pick(who, x)
+			mine := f != nil
 			if mine && f.Point == "before-register" {
 				act(x, f.Action)
 			}
